@@ -702,3 +702,110 @@ def validate_eam_builder(run, n=60):
             if bad <= 2:
                 run.tie_broken("translator", "generated EAM_Potential_Builder vs the real one", "model %r (add_undefined=%s): real %s generated %s" % (text[95:400], add_undefined, real, a))
     return len(cases)
+
+
+def validate_modifiers(run, n=60):
+    """the regenerated sum / product / pow modifiers (`_modifiers.py`: `_modifier_from_func_reduce` and its three callers) against the real functions: constant
+    argument callables whose values identify them (sum: distinct powers of two, product: distinct primes, pow: small bases and exponents), the real
+    atsim.potentials.plus / product / pow as the combinators; the value of the real modifier at a point against the generated fold's value"""
+    import atsim.potentials.config
+    from atsim.potentials import _modifiers
+    ok, log = build_gen()
+    if not ok:
+        run.tie_broken("translator", "Gen/Logic.lean (modifiers)", "the regenerated definitions (or their driver) do not build: " + log[-600:])
+        return 0
+    rng = run.rng
+
+    class Builder(object):
+        def __init__(self):
+            self.made = []
+
+        def create_potential_function(self, pfi):
+            self.made.append(pfi)
+            v = float(pfi)
+            return lambda r: v
+    cases, reqs = [], []
+    for _ in range(n):
+        which = rng.choice(["sum", "product", "pow"])
+        if which == "sum":
+            ids = rng.sample([1, 2, 4, 8, 16, 32, 64], rng.randint(0 if rng.random() < 0.1 else 1, 6))
+        elif which == "product":
+            ids = rng.sample([2, 3, 5, 7, 11, 13], rng.randint(0 if rng.random() < 0.1 else 1, 6))
+        else:
+            ids = [rng.choice([2, 3, 4])] + [rng.choice([1, 2, 3]) for _ in range(rng.randint(0, 2))]
+        cases.append((which, ids))
+        reqs.append(dict(op="modifiers", which=which, ids=ids))
+    bad = 0
+    for (which, ids), a in zip(cases, query_gen(reqs)):
+        b = Builder()
+        try:
+            f = getattr(_modifiers, which)(list(ids), b)
+            real = int(f(1.5)) if float(f(1.5)) == int(f(1.5)) else f(1.5)
+            if b.made != ids:
+                real = "callables made for %s" % (b.made,)
+        except TypeError:
+            real = "noArguments"
+        run.traces += 1
+        run.dist["translator-validation/modifiers/%s" % which] += 1
+        if real != a:
+            bad += 1
+            if bad <= 2:
+                run.tie_broken("translator", "generated %s() modifier vs the real one" % which, "arguments with values %s: real %s generated %s" % (ids, real, a))
+    return len(cases)
+
+
+def validate_register_each_other(run, n=12):
+    """the regenerated Potential_Form_Registry._register_with_each_other against the real registry: [Potential-Form] and [Table-Form] entries in random number and
+    order; what each custom form's symbol table holds afterwards (the labels registered with it) and the order of the register_function calls (recorded by wrapping
+    the method) against the generated call list"""
+    import atsim.potentials.config
+    from atsim.potentials.config import ConfigParser
+    from atsim.potentials.config._potential_form_registry import Potential_Form_Registry
+    from atsim.potentials.config._cexprtk_potential_function import _Cexptrk_Potential_Function
+    from atsim.potentials.config._python_potential_function import _Python_Potential_Function
+    ok, log = build_gen()
+    if not ok:
+        run.tie_broken("translator", "Gen/Logic.lean (registry)", "the regenerated definitions (or their driver) do not build: " + log[-600:])
+        return 0
+    rng = run.rng
+    cases, reqs = [], []
+    for _ in range(n):
+        ntab, ncus = rng.randint(0, 2), rng.randint(0, 5)
+        tabs = ["tb%d" % i for i in range(ntab)]
+        cus = ["cf%d" % i for i in range(ncus)]
+        rng.shuffle(cus)
+        text = "[Pair]\n\n" + "".join("[Table-Form:%s]\ninterpolation : cubic_spline\nx : 0 1 2 3\ny : 0 1 4 9\n\n" % t for t in tabs)
+        text += "[Potential-Form]\n" + "".join("%s(r, A) : A*r + %d\n" % (c, i) for i, c in enumerate(cus))
+        cases.append((text, tabs + cus))
+        reqs.append(dict(op="register_each_other", n=len(tabs) + len(cus)))
+    bad = 0
+    for (text, labels), a in zip(cases, query_gen(reqs)):
+        calls = []
+        saved = [(c, c.register_function) for c in (_Cexptrk_Potential_Function, _Python_Potential_Function)]
+
+        def wrap(orig):
+            def register_function(self, func):
+                calls.append((self._potential_form_tuple.signature.label if hasattr(self._potential_form_tuple, "signature") else self._potential_form_tuple.name,
+                              func._potential_form_tuple.signature.label if hasattr(func._potential_form_tuple, "signature") else func._potential_form_tuple.name))
+                return orig(self, func)
+            return register_function
+        try:
+            for c, o in saved:
+                c.register_function = wrap(o)
+            reg = Potential_Form_Registry(ConfigParser(io.StringIO(text)))
+        finally:
+            for c, o in saved:
+                c.register_function = o
+        order = list(reg._potential_forms.keys())
+        real = [[order.index(x), order.index(y)] for x, y in calls]
+        held = {l: sorted(k for k in reg[l].potential_function._local_symbol_table.functions.keys() if k in order) for l in order
+                if isinstance(reg[l].potential_function, _Cexptrk_Potential_Function)}
+        gen_held = {l: sorted(order[y] for x, y in a if order[x] == l) for l in held}
+        run.traces += 1
+        run.dist["translator-validation/register_with_each_other/n=%d" % len(order)] += 1
+        if real != a or held != gen_held or sorted(order) != sorted(labels):
+            bad += 1
+            if bad <= 2:
+                run.tie_broken("translator", "generated _register_with_each_other vs the real registry", "forms %s: real calls %s generated %s; symbol tables hold %s, generated %s"
+                               % (order, real, a, held, gen_held))
+    return len(cases)
